@@ -27,10 +27,12 @@ add("C13","sched","Stateless model checking of the real BER engine: BerTest::run
 
 add("C12","enum","Bounded exhaustive over the configuration space of the BER chain with every source of randomness owned by the harness: (4 codes) x (BPSK, 8PSK) x (every puncturing pattern of length <= 6) x (every interleaver column count dividing the frame, both directions) x 4 Eb/N0 x noise streams, ALL messages per run; the LLR vectors the real engine hands to an injected decoder are compared value by value with an independent reference chain.","Gaussianity of the draws is delegated to rand_distr (trusted base); one worker thread.","bounded exhaustive enumeration of configurations with harness-owned RNG, differential comparison against an independent reference chain")
 
+add("C16","enum","Bounded exhaustive over a configuration grid x a window of consecutive seeds for both constructions, every run executed twice; every invariant of the statement checked on every successful result, the PEG edge rule replayed edge by edge against an independent BFS; the parallel seed search compared, under four pool sizes, with the exhaustively computed per-seed outcome set of its window (including windows cut just before / at the first successful seed).","u64 seeds: a window only. rayon's own interleavings are not enumerated: correctness for every schedule rests on the exhaustive per-seed outcome set plus independence of the per-seed runs.","bounded exhaustive enumeration of configurations x seed window against invariants and a replayed reference construction; exhaustive environment-answer menu for the parallel search")
+add("C19","bfs","The eight exported C symbols are called through extern \"C\": constructors over a full menu of alist texts / names / puncturing strings (null exactly when a prerequisite fails); decoder handles explored over EVERY call sequence up to depth 3 from a 48-72 call menu, each call compared with a fresh Rust decoder; encoder handles over every input in {0,1,2,255}^k.","Buffers have the documented lengths (the C contract).","explicit-state exploration of all call sequences to depth 3 on live handles, fresh-object differential oracle; exhaustive constructor/argument menus")
+add("C20","enum","Exhaustive / bounded exhaustive over argument menus of the real binary built from the working tree with the guard off: every dvbs2 and ccsds argument combination, grids for mackay-neal / peg / systematic / encode / ber, and invalid invocations for each subcommand; stdout, stderr, exit status and output files compared with what the library computes.","ber output is judged through run-invariant identities only.","exhaustive enumeration of CLI argument menus, differential comparison with the library")
+
 NA = {}
 def na(pid, reason): NA[pid] = reason
-for p in ["C16","C19","C20"]:
-    na(p, "check not yet built in this round (work in progress; see DESIGN.md section 5)")
 
 def load_overrides():
     p = os.path.join(HERE, "manifest_overrides.json")
@@ -63,7 +65,7 @@ def main():
             "guard": "--cfg ldpc_toolbox_verif",
             "enable": "The harness package /verif/harness/ldpc (manifest generated from /repo/Cargo.toml, [lib] path = /repo/src/lib.rs) is built with RUSTFLAGS=--cfg ldpc_toolbox_verif (harness/.cargo/config.toml) and depends on /verif/harness/shim (crate verif_shim). The repository's own manifest never enables the guard.",
             "baseline_off_cmd": "cd /repo && cargo test --workspace --no-fail-fast --offline",
-            "source_commits": ["63d2677"],
+            "source_commits": ["f112429"],
             "add_only": True,
         },
         "engines": [e for e in engines if e["serves_properties"]],
